@@ -683,18 +683,19 @@ const c11SlowMs = 400     // a call issued after the observed close must return 
 
 // c11Case is one script together with what was observed when it ran (so a case is its own replay).
 type c11Case struct {
-	Mode      string `json:"mode"`                 // how the server closes: close | half | rst | push | restart | idle
-	Burst     int    `json:"burst"`                // concurrent callers per round (1 = sequential)
-	Seq       int    `json:"seq"`                  // sequential calls of each caller per round; the server closes after burst*seq replies
-	DelayUs   int    `json:"delay_us"`             // delay between the observed close and the next round's calls
-	Rounds    int    `json:"rounds"`               // number of closes
-	OffsMs    []int  `json:"offs_ms,omitempty"`    // pushcmd: the calls of a round are issued this many ms after the observed client swap
-	PushClose bool   `json:"push_close,omitempty"` // pushcmd: the server closes the notified connection itself right after the notification
-	TLS       bool   `json:"tls,omitempty"`        // ssl endpoint: the scripted server speaks TLS, the client uses its configured TLS settings
-	CutKind   string `json:"cut_kind,omitempty"`   // mode cut: what the server is writing when it closes in the middle of a package: push | notify | response
-	CutAt     int    `json:"cut_at,omitempty"`     // mode cut: number of bytes of that package written before the close (clamped to 1..len-1); mode latereply: offset in us of the reply from the caller's deadline
-	QueueLen  int    `json:"queue_len,omitempty"`  // > 0: length of the client's send queue (default 10000)
-	PauseUs   int    `json:"pause_us,omitempty"`   // > 0: each round is two sets of calls on the same connection with this idle period between them
+	Mode        string `json:"mode"`                  // how the server closes: close | half | rst | push | restart | idle
+	Burst       int    `json:"burst"`                 // concurrent callers per round (1 = sequential)
+	Seq         int    `json:"seq"`                   // sequential calls of each caller per round; the server closes after burst*seq replies
+	DelayUs     int    `json:"delay_us"`              // delay between the observed close and the next round's calls
+	Rounds      int    `json:"rounds"`                // number of closes
+	OffsMs      []int  `json:"offs_ms,omitempty"`     // pushcmd: the calls of a round are issued this many ms after the observed client swap
+	PushClose   bool   `json:"push_close,omitempty"`  // pushcmd: the server closes the notified connection itself right after the notification
+	TLS         bool   `json:"tls,omitempty"`         // ssl endpoint: the scripted server speaks TLS, the client uses its configured TLS settings
+	CutKind     string `json:"cut_kind,omitempty"`    // mode cut: what the server is writing when it closes in the middle of a package: push | notify | response
+	CutAt       int    `json:"cut_at,omitempty"`      // mode cut: number of bytes of that package written before the close (clamped to 1..len-1); mode latereply: offset in us of the reply from the caller's deadline
+	QueueLen    int    `json:"queue_len,omitempty"`   // > 0: length of the client's send queue (default 10000)
+	ObjQueueMax int    `json:"objqueuemax,omitempty"` // > 0: client setting objqueuemax (calls of one proxy not yet settled; default 100000)
+	PauseUs     int    `json:"pause_us,omitempty"`    // > 0: each round is two sets of calls on the same connection with this idle period between them
 
 	Events   []c11Event `json:"events,omitempty"`
 	Retries  int        `json:"retries,omitempty"`    // re-runs made after a timing failure
@@ -774,10 +775,15 @@ func c11RunScript(c *c11Case) ([]c11Event, string) {
 	}
 	defer srv.stop()
 	comm := tars.NewCommunicator()
-	if c.QueueLen > 0 {
-		// a private copy of the client configuration of this communicator with a short send queue
+	if c.QueueLen > 0 || c.ObjQueueMax > 0 {
+		// a private copy of the client configuration of this communicator with a short send queue / a small objqueuemax
 		cfg := *comm.Client
-		cfg.ClientQueueLen = c.QueueLen
+		if c.QueueLen > 0 {
+			cfg.ClientQueueLen = c.QueueLen
+		}
+		if c.ObjQueueMax > 0 {
+			cfg.ObjQueueMax = int32(c.ObjQueueMax)
+		}
 		comm.Client = &cfg
 	}
 	prx := &c11Prx{}
@@ -1623,7 +1629,7 @@ func c11Run(c *c11Case) []Failure {
 			} else if c.Mode == "cut" {
 				what = fmt.Sprintf("server closes the connection after the first %d byte(s) of a %s package, %d call(s) %d us after the observed close", c.CutAt, c.CutKind, c.Burst, c.DelayUs)
 			} else if c.Mode == "down" {
-				what = fmt.Sprintf("server closes the connection and stops listening, %d call(s) while it is down (client send queue length %d, 0 = default), server listens again, %d call(s) %d us later", c.Seq, c.QueueLen, c.Burst, c.DelayUs)
+				what = fmt.Sprintf("server closes the connection and stops listening, %d call(s) while it is down (client send queue length %d, objqueuemax %d; 0 = default), server listens again, %d call(s) %d us later", c.Seq, c.QueueLen, c.ObjQueueMax, c.Burst, c.DelayUs)
 			} else if c.Mode == "pushcmd" {
 				what = fmt.Sprintf("server sends the close notification on the connection in use (closes it itself: %v), calls %v ms after the observed client swap", c.PushClose, c.OffsMs)
 			} else if c.PauseUs > 0 {
@@ -1735,6 +1741,9 @@ func c11Gen(tier string, rng *rand.Rand) []c11Case {
 		// a long outage for a short send queue: more failed calls than the queue holds
 		ql := 2 + r%2
 		cs = append(cs, c11Case{Mode: "down", Burst: 2 + rng.Intn(2), Seq: ql + 2 + rng.Intn(2), DelayUs: d, Rounds: 1 + r%2, QueueLen: ql})
+		// ... and for a small objqueuemax: more failed calls than calls of one proxy may be unsettled
+		oq := 2 + (r+1)%2
+		cs = append(cs, c11Case{Mode: "down", Burst: 2 + rng.Intn(2), Seq: oq + 2 + rng.Intn(2), DelayUs: d, Rounds: 1 + (r+1)%2, ObjQueueMax: oq, TLS: r%4 == 2})
 	}
 	for r := 0; r < 2*reps; r++ {
 		// close notification, calls before / around / after the 500 ms grace tick of the swapped-out client
@@ -1856,6 +1865,9 @@ func init() {
 				}
 				if c.QueueLen > 0 {
 					pz += fmt.Sprintf("/q%d", c.QueueLen)
+				}
+				if c.ObjQueueMax > 0 {
+					pz += fmt.Sprintf("/oq%d", c.ObjQueueMax)
 				}
 				if c.TLS {
 					pz += "/ssl"
